@@ -42,6 +42,12 @@ TStep ==
            \* string / body): if the browser is returned anywhere, it is to the validly signed one (samehost = it is)
            /\ IF r.back /\ ~r.samehost THEN PrintT(<<"VIOL", l, {"C19_GatedSignOut"}>>) ELSE TRUE
            /\ UNCHANGED <<vars, lost>>
+        ELSE IF r.ev = "atwin" THEN
+           \* one of two sign-outs confirmed at the same time by two devices of one user (each with its own tokens):
+           \* "revokes the user's token at the identity provider and only then clears the authenticator cookie" -
+           \* revoke = THIS device's token family is revoked at the identity provider afterwards
+           /\ IF r.cleared /\ ~r.revoke THEN PrintT(<<"VIOL", l, {"C19_RevokeBeforeClear"}>>) ELSE TRUE
+           /\ UNCHANGED <<vars, lost>>
         ELSE IF lost THEN UNCHANGED <<vars, lost>>
         ELSE /\ Act(r)
              /\ LET vs == Violated(ac, fam, Obs(r)) dr == Drift(r) IN
